@@ -124,6 +124,10 @@ func needSep(prev, next string) bool {
 		return false
 	}
 	p, n := prev[len(prev)-1], next[0]
+	if isNumeral(prev) && (n >= 'a' && n <= 'z') && n != 'e' {
+		// a numeral ends where its digits and points end: "4div 2" is 4, div, 2
+		return false
+	}
 	if isWordy(p) && (isWordy(n) || n == '-' || n == ':') {
 		return true
 	}
@@ -141,6 +145,19 @@ func needSep(prev, next string) bool {
 	}
 	// a quoted literal never fuses
 	return false
+}
+
+// isNumeral: digits and points only, beginning with a digit
+func isNumeral(t string) bool {
+	if t == "" || t[0] < '0' || t[0] > '9' {
+		return false
+	}
+	for i := 0; i < len(t); i++ {
+		if !(t[i] >= '0' && t[i] <= '9') && t[i] != '.' {
+			return false
+		}
+	}
+	return true
 }
 
 var wsChoices = []string{" ", "\t", "\n", "\r\n", "  ", " \t "}
